@@ -203,9 +203,14 @@ def set_ownertrust(env, fpr, level):
 
 
 def snapshot_dir(d):
+    """Content of a GNUPGHOME that matters: keyrings, trust database, secret keys,
+    configuration.  Agent sockets, lock files and random_seed come and go with the
+    (asynchronously terminating) gpg-agent and are not part of the keyring."""
     out = {}
     for base, dn, fn in os.walk(d):
         for n in fn:
+            if n.startswith('S.') or n.startswith('.#lk') or n == 'random_seed' or n.endswith('.lock'):
+                continue
             p = os.path.join(base, n)
             if os.path.islink(p) or not os.path.isfile(p):
                 out[os.path.relpath(p, d)] = 'special'
